@@ -46,6 +46,7 @@ type Exec struct {
 	props       []string
 	callOrd     map[string]int
 	initOnly    map[*ssa.Global]*globalInit
+	topFrame    *Frame
 	inInvoke    int
 	invAllocs   []invAlloc
 	storeFr     *Frame
